@@ -1,3 +1,4 @@
+use syn::ext::IdentExt;
 use std::borrow::Cow;
 
 use syn::{parse_quote_spanned, spanned::Spanned};
@@ -32,7 +33,7 @@ impl InputField {
             name_in_attr: self
                 .attr_name
                 .as_ref()
-                .map_or_else(|| Cow::Owned(self.ident.to_string()), Cow::Borrowed),
+                .map_or_else(|| Cow::Owned(self.ident.unraw().to_string()), Cow::Borrowed),
             ty: &self.ty,
             default_expression: self.as_codegen_default(),
             with_callable: self.with.as_ref().map(|w| w.as_ref()).map_or_else(
@@ -95,7 +96,7 @@ impl InputField {
         // explicit renamings take precedence over rename rules on the container,
         // but in the absence of an explicit name we apply the rule.
         if self.attr_name.is_none() {
-            self.attr_name = Some(parent.rename_rule.apply_to_field(self.ident.to_string()));
+            self.attr_name = Some(parent.rename_rule.apply_to_field(self.ident.unraw().to_string()));
         }
 
         // Determine the default expression for this field, based on three pieces of information:
